@@ -55,7 +55,7 @@ static std::string num(double v)
     snprintf(b, sizeof b, "%.17g", v);
     return b;
 }
-static double worst[16];
+static double worst[16], worst_raw[16];
 
 // ---------------------------------------------------------------- univariate helpers
 // Reference type of the univariate sweep: __float128 (libquadmath) for the double build; for the float build the host's double
@@ -114,8 +114,12 @@ static void uni_one(int f, a_real x)
         ++n_eval;
         n_nt += want != 0;
         double err = want == 0 ? (got == 0 ? 0 : 1e300) : (double)(u_abs((UQ)got - want) / ((UQ)EPS * u_abs(want)));
-        double ratio = err / (1 + cond);
+        // the argument is an exact floating-point number, so the statement's "small multiple of machine precision" needs no conditioning
+        // allowance here (the worst raw error on the unchanged tree is ~2 eps); the conditioning is only reported
+        double ratio = err;
+        (void)cond;
         if (ratio > worst[f * 2 + which]) { worst[f * 2 + which] = ratio; }
+        if (err > worst_raw[f * 2 + which]) { worst_raw[f * 2 + which] = err; }
         if (!(ratio <= ULPS))
         {
             R.viol(std::string("real|") + u.name + "|" + (which ? "bound" : "fallback"), std::string(which ? "a_real_" : "fallback a_real_") + u.name + "(" + num((double)x) + ") = " + num((double)got) + " but the value is " + num((double)want) + ": " + num(err) + " eps (conditioning " + num(cond) + "), tolerated " + num(ULPS),
@@ -482,7 +486,33 @@ static void blocks()
             vx::leave();
         }
     }
-    R.part("sum/sum1/sum2/mean/dot and strided forms, copy/swap/fill/zero, push_fore/back(_), roll_fore/back(_): every length 0..6, strides 1..3 (pairs of strides for dot_ and copy_), cache/shift lengths 0..7, small-integer contents (exact), guard cells on both sides", n, nt);
+    // means of huge values: the mean (sum / n) is representable whenever the data are, even where the plain sum is not
+    {
+        const a_real H[5] = {(a_real)RMAX, (a_real)-RMAX, (a_real)(RMAX / 2), (a_real)(-RMAX / 2), 1};
+        for (size_t len = 1; len <= 3; ++len)
+        {
+            size_t total = 1;
+            for (size_t i = 0; i < len; ++i) { total *= 5; }
+            for (size_t code = 0; code < total; ++code)
+            {
+                for (size_t c = 1; c <= 3; ++c)
+                {
+                    std::vector<a_real> buf(len * c + 2, (a_real)RMAX);
+                    Q sum = 0, sa = 0;
+                    size_t cc = code;
+                    for (size_t i = 0; i < len; ++i) { a_real v = H[cc % 5]; cc /= 5; buf[i * c] = v; sum += (Q)v; sa += fabsq((Q)v); }
+                    Q m = sum / (Q)len;
+                    a_real got = c == 1 ? a_real_mean(len, buf.data()) : a_real_mean_(len, buf.data(), c);
+                    ++n; ++nt;
+                    if (!(fabsq((Q)got - m) <= 8 * (Q)EPS * sa / (Q)len))
+                    {
+                        R.viol(std::string("real|mean|huge") + (c == 1 ? "" : "|strided"), "the mean of " + std::to_string(len) + " huge values is " + num((double)got) + " but sum/n = " + num((double)m) + " is representable", "{\"len\":" + std::to_string(len) + ",\"code\":" + std::to_string(code) + ",\"stride\":" + std::to_string(c) + "}");
+                    }
+                }
+            }
+        }
+    }
+    R.part("sum/sum1/sum2/mean/dot and strided forms, copy/swap/fill/zero, push_fore/back(_), roll_fore/back(_): every length 0..6, strides 1..3 (pairs of strides for dot_ and copy_), cache/shift lengths 0..7, small-integer contents (exact), guard cells on both sides; means of all vectors of length 1..3 over {+-MAX, +-MAX/2, 1}", n, nt);
 }
 
 int main(int argc, char **argv)
@@ -498,6 +528,9 @@ int main(int argc, char **argv)
         std::string w = "{";
         for (int i = 0; i < 15; ++i) { w += (i ? "," : "") + std::string("\"") + wn[i] + "\":" + num(worst[i]); }
         vx::info("worst_error_eps", w + "}");
+        std::string w2 = "{";
+        for (int i = 0; i < 10; ++i) { w2 += (i ? "," : "") + std::string("\"") + wn[i] + "\":" + num(worst_raw[i]); }
+        vx::info("worst_raw_error_eps", w2 + "}");
         R.sample("{\"fn\":\"fallback a_real_log1p\",\"x\":1e-10,\"value\":" + num((double)a_real_log1p((a_real)1e-10)) + "}");
         R.finish(true, "every listed domain enumerated");
     }, 600.0);
